@@ -775,10 +775,22 @@ func checkToLoop(c *Ctx, it *types.Named, fn *ssa.Function, name string) []strin
 			}
 			continue
 		}
-		// every iteration starts with the own step
+		// every iteration starts with the own step — or, where the own step is nothing but the wrapped iterator's step handed
+		// back (a one-path forwarder: judged as such by R14wrap), with that very call written out
 		if len(g.Effects) == 0 || g.Effects[0].Op != "do" || g.Effects[0].Leaf != own || g.Effects[0].Args[0].String() != "p:0" {
-			bad = append(bad, "a loop iteration does not start with the own "+step+"()")
-			continue
+			writtenOut := false
+			if sf := ms[step]; sf != nil && len(g.Effects) > 0 && g.Effects[0].Op == "do" {
+				if sg := c.GC(sf); sg.Undecided == "" && len(sg.GCs) == 1 && len(sg.GCs[0].Guards) == 0 && len(sg.GCs[0].Effects) == 1 {
+					e0, ex := sg.GCs[0].Effects[0], sg.GCs[0].Exit
+					if e0.Op == "do" && ex.Op == "return" && len(ex.Args) == 1 && ex.Args[0].Op == "res" && len(ex.Args[0].Args) == 1 && ex.Args[0].Args[0].String() == e0.String() && noEpoch(e0) == noEpoch(g.Effects[0]) {
+						writtenOut = true
+					}
+				}
+			}
+			if !writtenOut {
+				bad = append(bad, "a loop iteration does not start with the own "+step+"()")
+				continue
+			}
 		}
 		stepped, called := 0, (*Term)(nil)
 		calledPol := false
